@@ -187,6 +187,7 @@ func main() {
 	write(filepath.Join(out, "Consts.lean"), renderConsts(F))
 	write(filepath.Join(out, "Modes.lean"), modes)
 	write(filepath.Join(out, "Structural.lean"), structural)
+	write(filepath.Join(out, "Funcs.lean"), extractFuncs(snaps))
 	b, _ := json.MarshalIndent(F, "", " ")
 	write(filepath.Join(out, "facts.json"), string(b))
 }
